@@ -337,3 +337,147 @@ theorem stepTokB_sim (dia : Dialect) (mf : Nat) (aw : Bool) (c : CU) (s1 : BS) (
                         exact hunq hmeta
                     · simp only [hsemi, false_and, if_false]
                       exact hunq hmeta
+
+/-! ### next_token -/
+
+/-- related results of next_token's loop -/
+structure RelTok (mf : Nat) (s' : BS) (tp : Tok × Pos) : Prop where
+  good : Good mf s'
+  tok : s'.tok = tp.1
+  rem : s'.remaining = tp.2.rest
+  line : s'.line = tp.2.line
+  col : s'.col = tp.2.col
+
+theorem nextChar_none {mf : Nat} {s : BS} (h : (peekChar mf s).1 = none) : nextChar mf s = (none, (peekChar mf s).2) := by
+  unfold nextChar; simp only [h]
+
+theorem nextChar_some {mf : Nat} {s : BS} {c : CU} (h : (peekChar mf s).1 = some c) :
+    nextChar mf s = (some c, skipOne (peekChar mf s).2) := by
+  unfold nextChar; simp only [h]; rfl
+
+/-- a token is ready: the loop is left -/
+theorem tokLoopB_exit (dia : Dialect) (mf fuel : Nat) (s : BS) (aw : Bool) (ty : TokType) (h : s.sb.textStart < s.sb.next) :
+    tokLoopB dia mf fuel s aw ty = L.pure { s with ttype := ty } := by
+  cases fuel with
+  | zero => rfl
+  | succ f =>
+    unfold tokLoopB
+    rw [if_neg (by omega)]
+    rfl
+
+/-- one iteration of the loop from the state `s0` in which `tvalue_start` / `tvalue_length` have been reset -/
+def tokIter (dia : Dialect) (mf fuel : Nat) (aw : Bool) (s0 : BS) : L BS :=
+  match (nextChar mf s0).1 with
+  | none => pure { (nextChar mf s0).2 with ttype := .end_ }
+  | some c => do
+    let st ← stepTokB dia mf aw c (nextChar mf s0).2
+    match st with
+    | .tok ty' s2 => tokLoopB dia mf fuel s2 aw ty'
+    | .skip aw' s2 => tokLoopB dia mf fuel s2 aw' .error
+
+theorem tokLoopB_succ (dia : Dialect) (mf fuel : Nat) (s : BS) (aw : Bool) (ty : TokType) (h : s.sb.textStart ≥ s.sb.next) :
+    tokLoopB dia mf (fuel + 1) s aw ty
+      = tokIter dia mf fuel aw { s with sb := { s.sb with tvalueStart := s.sb.textStart }, tvlen := 0 } := by
+  rw [tokLoopB, if_pos h]
+  rfl
+
+theorem tokIter_sim (dia : Dialect) (mf fuel : Nat) (aw : Bool) (s0 : BS) (line col : Nat)
+    (ih : ∀ (s : BS) (aw : Bool) (ty : TokType), Good mf s → s.sb.textStart = s.sb.next → s.remaining.length < fuel →
+      Sim (RelTok mf) (tokLoopB dia mf fuel s aw ty) (tokLoop dia fuel aw ⟨s.remaining, s.line, s.col⟩))
+    (g0 : Good mf s0) (htext0 : s0.text = []) (htv0 : s0.sb.tvalueOffset = 0) (hlen0 : s0.tvlen = 0)
+    (hline : s0.line = line) (hcol : s0.col = col) (hf : s0.remaining.length < fuel + 1) :
+    Sim (RelTok mf) (tokIter dia mf fuel aw s0) (tokLoop dia (fuel + 1) aw ⟨s0.remaining, line, col⟩) := by
+  have pk := peekChar_spec mf s0 g0
+  have sm := pk.1
+  unfold tokIter
+  cases hp : (peekChar mf s0).1 with
+  | none =>
+    rw [nextChar_none hp]
+    have hnil := pk.2.1 hp
+    rw [hnil]
+    simp only []
+    intro pol log
+    rw [tokLoop_nil]
+    refine ⟨rfl, sm.good.congr rfl rfl rfl, ?_, ?_, sm.line.trans hline, sm.col.trans hcol⟩
+    · show (⟨TokType.end_, (peekChar mf s0).2.value, (peekChar mf s0).2.line, (peekChar mf s0).2.col⟩ : Tok) = ⟨.end_, [], line, col⟩
+      have hv : (peekChar mf s0).2.value = [] := by
+        simp only [BS.value, sm.tvlen, hlen0]; rfl
+      rw [hv, sm.line, sm.col, hline, hcol]
+    · show (peekChar mf s0).2.remaining = []
+      rw [sm.rem, hnil]
+  | some c =>
+    rw [nextChar_some hp]
+    have hp2 := pk.2.2 c hp
+    have ad := skipOne_adv mf dia _ sm.good hp2.1
+    rw [← hp2.2] at ad
+    have hrc : s0.remaining = c :: (skipOne (peekChar mf s0).2).remaining := by
+      have := ad.rem
+      rw [sm.rem, ← hp2.2] at this
+      exact this
+    have hfl : (skipOne (peekChar mf s0).2).remaining.length < fuel := by
+      rw [hrc] at hf; simp only [List.length_cons] at hf; omega
+    rw [hrc, tokLoop_cons]
+    simp only []
+    have h1text : (skipOne (peekChar mf s0).2).text = [c] := by
+      rw [ad.text, sm.text, htext0]; rfl
+    have hst := stepTokB_sim dia mf aw c _ col ad.good h1text (by rw [ad.tvoff, sm.tvoff, htv0])
+      (by show (peekChar mf s0).2.col + 1 = col + 1; rw [sm.col, hcol]) (by show (peekChar mf s0).2.tvlen = 0; rw [sm.tvlen, hlen0])
+    have hl1 : (skipOne (peekChar mf s0).2).line = line := by
+      show (peekChar mf s0).2.line = line
+      rw [sm.line, hline]
+    rw [hl1] at hst
+    show Sim _ (L.bind _ _) (L.bind _ _)
+    apply sim_bind' hst
+    intro stB st rel ⟨pol, log, log', hprod⟩
+    have hle := (stepTok_len dia aw c _ _ _ pol log log' st hprod).1
+    cases stB with
+    | tok ty' s2 =>
+      cases st with
+      | tok t p =>
+        obtain ⟨r1, r2, r3, r4, r5, r6, r7, r8, r9⟩ := rel
+        simp only []
+        rw [tokLoopB_exit dia mf fuel s2 aw ty' r9]
+        apply sim_pure
+        refine ⟨r1.congr rfl rfl rfl, ?_, r6, r7, r8⟩
+        show (⟨ty', s2.value, s2.line, s2.col⟩ : Tok) = t
+        rw [r2, r3, r4, r5]
+      | skip aw' p =>
+        obtain ⟨r1, r2, r3, r4, r5, r6⟩ := rel
+        simp only []
+        have hlp : p.rest.length < fuel := by simp only [Step.pos] at hle; omega
+        subst r1
+        have := ih s2 aw' ty' r2 r6 (by rw [r3]; exact hlp)
+        rw [r3, r4, r5] at this
+        exact this
+    | skip aw2 s2 =>
+      cases st with
+      | tok t p => exact rel.elim
+      | skip aw' p =>
+        obtain ⟨r1, r2, r3, r4, r5, r6⟩ := rel
+        simp only []
+        have hlp : p.rest.length < fuel := by simp only [Step.pos] at hle; omega
+        subst r1
+        have := ih s2 aw2 .error r2 r6 (by rw [r3]; exact hlp)
+        rw [r3, r4, r5] at this
+        exact this
+
+theorem tokLoopB_sim (dia : Dialect) (mf : Nat) : ∀ (fuel : Nat) (s : BS) (aw : Bool) (ty : TokType), Good mf s →
+    s.sb.textStart = s.sb.next → s.remaining.length < fuel →
+    Sim (RelTok mf) (tokLoopB dia mf fuel s aw ty) (tokLoop dia fuel aw ⟨s.remaining, s.line, s.col⟩) := by
+  intro fuel
+  induction fuel with
+  | zero => intro s aw ty g ht hf; omega
+  | succ fuel ih =>
+    intro s aw ty g ht hf
+    obtain ⟨i1, i2, i3, i4, i5⟩ := g.inv
+    rw [tokLoopB_succ dia mf fuel s aw ty (by omega)]
+    have g0 : Good mf { s with sb := { s.sb with tvalueStart := s.sb.textStart }, tvlen := 0 } :=
+      ⟨⟨Nat.le_refl _, by show s.sb.textStart ≤ s.sb.next; omega, i3, i4, i5⟩, g.size, g.mf, g.ok, g.eof⟩
+    have htext0 : ({ s with sb := { s.sb with tvalueStart := s.sb.textStart }, tvlen := 0 } : BS).text = [] := by
+      have := g0.text_length
+      have h2 : ({ s with sb := { s.sb with tvalueStart := s.sb.textStart }, tvlen := 0 } : BS).sb.next -
+          ({ s with sb := { s.sb with tvalueStart := s.sb.textStart }, tvlen := 0 } : BS).sb.textStart = 0 := by
+        show s.sb.next - s.sb.textStart = 0; omega
+      rw [h2] at this
+      exact List.eq_nil_of_length_eq_zero this
+    exact tokIter_sim dia mf fuel aw _ s.line s.col ih g0 htext0 (by simp [SB.tvalueOffset]) rfl rfl rfl hf
